@@ -706,6 +706,12 @@ class IntValidator(SOValidator):
             return None
         if isinstance(value, (int, long, sqlbuilder.SQLExpression)):
             return value
+        if isinstance(value, float) and value != value // 1:
+            # int() would silently drop the fraction (and a query for
+            # col == 0.5 would select the rows with col = 0)
+            raise validators.Invalid(
+                "expected an int in the IntCol '%s', got %s %r instead" % (
+                    self.name, type(value), value), value, state)
         for converter, attr_name in (int, '__int__'), (long, '__long__'):
             if hasattr(value, attr_name):
                 try:
